@@ -18,7 +18,8 @@
 (*   NonInterference   every run of the case produced byte-identical responses              *)
 (*   TwoWorlds         (at "end") at least two different worlds were compared               *)
 (* Design level (DRIFT only): decoded selector, handler class and response class are those  *)
-(* Handlers!Serve predicts.                                                                 *)
+(* Handlers!Serve predicts; every path seen in an audit event (paths, root prefix removed)   *)
+(* is Handlers!LiteralPath - the assumption NoTransformAfterFilter - and none is relative.   *)
 EXTENDS TraceBase
 
 H == INSTANCE Handlers
@@ -62,6 +63,11 @@ Run ==
     /\ (IF ~Ev[l].lselknown \/ SelMatches(info.plsel, Ev[l].lsel) THEN TRUE ELSE RecordDrift(tid, l, "decoded selector"))
     /\ (IF Ev[l].h = info.ph THEN TRUE ELSE RecordDrift(tid, l, "handler class"))
     /\ (IF RespMatches(info.presp, Ev[l].resp) THEN TRUE ELSE RecordDrift(tid, l, "response class"))
+    \* NoTransformAfterFilter: every path the server handed to the OS is a literal piece of the decoded
+    \* selector plus a trusted tail, and none was relative to the working directory
+    /\ (IF \A i \in 1..Len(Ev[l].paths) : H!LiteralPath(info.d, Ev[l].paths[i]) THEN TRUE
+        ELSE RecordDrift(tid, l, "LiteralPath: a path handed to the OS is not root + selector"))
+    /\ (IF Ev[l].relpaths = 0 THEN TRUE ELSE RecordDrift(tid, l, "LiteralPath: a relative path was handed to the OS"))
 
 End ==
     /\ l <= Len(Ev) /\ verdict = "ok" /\ Ev[l].ev = "end"
